@@ -410,19 +410,34 @@ impl Registrations {
         }
 
         let peer = new_registration.record.peer_id();
+        let namespace = new_registration.namespace;
 
-        if self
+        // Re-registering an existing (peer, namespace) replaces the old registration and hence
+        // never grows the table: the limits only apply to new entries.
+        let is_refresh = self
             .registrations_for_peer
-            .left_values()
-            .filter(|(p, _)| p == &peer)
-            .count()
-            >= self.config.max_registrations_per_peer
-            || self.registrations_for_peer.len() > self.config.max_registrations_total
+            .contains_left(&(peer, namespace.clone()));
+
+        if !is_refresh
+            && (self
+                .registrations_for_peer
+                .left_values()
+                .filter(|(p, _)| p == &peer)
+                .count()
+                >= self.config.max_registrations_per_peer
+                || self.registrations_for_peer.len() >= self.config.max_registrations_total)
         {
             return Err(ErrorCode::Unavailable);
         }
 
-        let namespace = new_registration.namespace;
+        // Discard the superseded registration so that it neither lingers nor expires later.
+        if let Some((_, superseded)) = self
+            .registrations_for_peer
+            .remove_by_left(&(peer, namespace.clone()))
+        {
+            self.registrations.remove(&superseded);
+        }
+
         let registration_id = RegistrationId::new();
 
         self.registrations_for_peer.insert(
